@@ -8,7 +8,7 @@ import common  # noqa: E402
 
 GENERATORS = {'gen_c16': 'NautilusVerif/Generated/C16.lean', 'gen_c14': 'NautilusVerif/Generated/C14.lean'}
 MODULES = ['NautilusVerif.Driver.All', 'NautilusVerif.Properties.C16', 'NautilusVerif.Properties.C14',
-           'NautilusVerif.Properties.C15']
+           'NautilusVerif.Properties.C15', 'NautilusVerif.Properties.C13']
 
 
 def main():
